@@ -11,7 +11,7 @@ TECHNIQUE = "runtime monitoring: contract monitor (conservation relation over th
 LEVEL = "exploration"
 RULE = ("Contract on every real rate() return: S = sum_i (sum_j dmu_ij)/(sum_j sigma_ij^2+tau^2) computed from the "
         "pre-call snapshot and the returned values must satisfy |S| <= sum_ij (1e-9|dmu_ij| + 4eps(|mu_prior|+|mu_post|))"
-        "/var_i (+ 2kappa/c_min^2 per tied pair for Thurstone-Mosteller, c_min^2 = 2beta^2+s_i^2+s_q^2). Workload as C01 "
+        "/var_i + 8eps sum_q(1+|x_iq|)/c_min for the rounding inside the accumulated sum (+ 2kappa/c_min^2 per tied pair for Thurstone-Mosteller, c_min^2 = 2beta^2+s_i^2+s_q^2). Workload as C01 "
         "(all outcomes incl. multi-way ties; beta/tau/kappa/gamma varied); when all team variances are equal the plain "
         "sum of mu changes is checked too. Non-trivial: tolerance < 1e-3 of sum_i |team dmu|/var_i, i.e. the monitor can "
         "see an imbalance; distinct by canonical hash.")
@@ -54,6 +54,12 @@ def probe_game(ctx, payload):
         mag += abs(math.fsum(d)) / v
     S = math.fsum(S_terms)
     allow = math.fsum(tol_terms)
+    # rounding INSIDE the accumulated update: Omega_i is a sum of terms of size <= 1 (BT, PL) or <= |x| + 1 (TM) that may
+    # cancel to nothing (three identical tied teams: (1 - 3p)/3 with p = 1/3), so its absolute rounding error is
+    # eps * s_i^2/c * sum|terms| whatever the size of mu; divided by var_i that is eps * sum|terms| / c, c >= sqrt(2) beta
+    th = [math.fsum(p[0] for p in tp) for tp in run.pri]
+    c_low = math.sqrt(2.0) * run.cfg["beta"]
+    allow += math.fsum(8 * EPS * (1 + abs(th[i] - th[q]) / c_low) / c_low for i in range(len(th)) for q in range(len(th)) if q != i)
     lv = meta["levels"]
     k = len(lv)
     if kind in ("TMF", "TMP"):
@@ -61,7 +67,8 @@ def probe_game(ctx, payload):
         for i in range(k):
             for q in range(i + 1, k):
                 if lv[i] == lv[q]:
-                    allow += 2 * run.cfg["kappa"] / (var[i] + var[q] + 2 * b2)
+                    # reached exactly by two tied teams of equal mu (the asymptotic V~ returns +t for both): 1e-9 slack
+                    allow += 2 * run.cfg["kappa"] / (var[i] + var[q] + 2 * b2) * (1 + 1e-9)
     ctx.ev("conservation")
     ctx.frac(f"S/allow/{kind}", abs(S) / allow if allow > 0 else 0)
     if not abs(S) <= allow:
